@@ -527,10 +527,225 @@ def real_alpha_vec(W):
     return np.asarray(real_order(np.asarray(W).tolist()).ordering_cone.alpha, dtype=float).reshape(-1)
 
 
+# --------------------------------------------------------------------------------------------
+# hand-placed rectangles on wide / narrow cones (real discarding + ε-covering, exact geometry)
+# --------------------------------------------------------------------------------------------
+EXTRA_CONES = {"obtuse2n3": [[2, 1], [1, 2], [1, 1]]}
+_theta_orders: dict = {}
+
+
+def cone_order(spec):
+    """(W as float array, real order object) for an EXACT_CONES / EXTRA_CONES name or {"theta": degrees}"""
+    from harness.cones import real_order
+
+    if isinstance(spec, dict) and "theta" not in spec:
+        W = _offdiag_W(spec)
+        return W, real_order(W.tolist())
+    if isinstance(spec, dict):
+        th = spec["theta"]
+        if th not in _theta_orders:
+            from vopy.order import ConeTheta2DOrder
+
+            _theta_orders[th] = ConeTheta2DOrder(th)
+        o = _theta_orders[th]
+        return np.asarray(o.ordering_cone.W, dtype=float), o
+    W = EXTRA_CONES[spec] if spec in EXTRA_CONES else EXACT_CONES[spec][0]
+    return np.asarray(W, dtype=float), real_order(W)
+
+
+def _cone_axis(spec):
+    """unit axis of a {"rays": …} / {"pyramid": …} cone (its u* by symmetry)"""
+    if "rays" in spec:
+        mid = np.radians(sum(spec["rays"]) / 2.0)
+        return np.array([np.cos(mid), np.sin(mid)])
+    a = np.asarray(spec["pyramid"][0], dtype=float)
+    return a / np.linalg.norm(a)
+
+
+def _offdiag_W(spec):
+    """cones NOT centred on the diagonal: 2-D cone spanned by two rays (degrees), or a 3-D cone with
+    `n` facets arranged symmetrically around an axis at half-angle complement `phi` (inward unit normals)"""
+    if "rays" in spec:
+        lo, hi = np.radians(spec["rays"][0]), np.radians(spec["rays"][1])
+        return np.array([[-np.sin(lo), np.cos(lo)], [np.sin(hi), -np.cos(hi)]])
+    axis, phi_deg, nf = spec["pyramid"]
+    a = _cone_axis(spec)
+    b1 = np.cross(a, [0.0, 0.0, 1.0])
+    b1 /= np.linalg.norm(b1)
+    b2 = np.cross(a, b1)
+    phi = np.radians(phi_deg)
+    ang = 2 * np.pi * np.arange(nf) / nf
+    return np.array([np.sin(phi) * a + np.cos(phi) * (np.cos(t) * b1 + np.sin(t) * b2) for t in ang])
+
+
+def _boundary_generator(W):
+    """a direction g on the boundary of the cone {x | Wx ≥ 0} (one facet functional 0, the others > 0)
+    with a negative coordinate (exists for cones wider than the orthant); 2 objectives: orthogonal to a
+    row; 3 objectives: (1, 1, z) on the first facet"""
+    W = np.asarray(W, dtype=float)
+    if W.shape[1] == 2:
+        for w in W:
+            for g in (np.array([w[1], -w[0]]), np.array([-w[1], w[0]])):
+                g = g / np.max(np.abs(g))
+                if np.all(W @ g >= -1e-12) and g.min() < -0.05:
+                    return g
+        return None
+    for k, w in enumerate(W):
+        if abs(w[2]) > 1e-12:
+            g = np.array([1.0, 1.0, -(w[0] + w[1]) / w[2]])
+            g = g / np.max(np.abs(g))
+            if np.all(W @ g >= -1e-9) and g.min() < -0.05:
+                return g
+    return None
+
+
+OFFDIAG_CONES = [{"rays": [60, 150]}, {"rays": [100, 170]}, {"pyramid": [[-1.0, 2.0, 2.0], 40, 4]},
+                 {"pyramid": [[2.0, -1.0, 2.0], 35, 5]}]
+WIDE_CONES = ["obtuse2", "obtuse2n3", "obtuse3", {"theta": 120}, {"theta": 135}, {"theta": 150}]
+NARROW_DIRS = {"acute2": [1.0, 3.0], "threefacet2": [1.0, 3.0], "acute3": [3.0, 0.2, 0.2]}
+
+
+def gen_placed_cover_case(rng, alg, cone, kind):
+    """Two (three) hand-placed boxes for the rectangle ε-covering algorithms.
+    kind "below-but-covers" (cones wider than the orthant): the coverer's box lies ENTIRELY below the
+    candidate's box in one objective (even after the slack), and still contains a point that ε-dominates a
+    point of the candidate's box, with a margin ≥ one box width; the candidate is robustly not dominated.
+    kind "above-but-cannot" (narrow cones): the other box is componentwise above the candidate's box by more
+    than the slack, yet no pair of points is related, margin ≥ 20 % of the box size."""
+    W, _ = cone_order(cone)
+    m = W.shape[1]
+    if kind == "negative-ustar-covers":
+        # cone whose axis u* has a NEGATIVE entry: boxes wide in that objective, narrow elsewhere; the coverer
+        # sits at distance t along the axis (centres related by 9× the slack), while u*·(upper_j − lower_i) < ε
+        a = _cone_axis(cone)
+        k0 = int(np.argmin(a))
+        hw = rng.choice([1.0, 2.0, 2.5])
+        hv = np.full(m, hw / 50.0)
+        hv[k0] = hw
+        t = 0.75 * abs(a[k0]) * 2 * hw
+        eps = float(2.0 ** np.floor(np.log2(t / 10.0)))
+        ci = np.array([core.dyadic(rng, -8, 8, 2) for _ in range(m)])
+        cj = np.round((ci + t * a) * 1024) / 1024
+        far = ci - 40.0 * a
+        lower = [list(map(float, ci - hv)), list(map(float, cj - hv)), list(map(float, far - hv))]
+        upper = [list(map(float, ci + hv)), list(map(float, cj + hv)), list(map(float, far + hv))]
+        n = rng.choice([2, 3])
+        return {"kind": "placed", "shape": kind, "alg": alg, "cone": cone, "eps": eps, "n": n,
+                "S": list(range(n)), "P": [], "lower": lower[:n], "upper": upper[:n], "enabled": True}
+    hi, hj = rng.choice([0.125, 0.25, 0.5]), rng.choice([0.125, 0.25, 0.5])
+    H = hi + hj
+    eps = min(hi, hj) / 4
+    ci = np.array([core.dyadic(rng, -8, 8, 2) for _ in range(m)])
+    if kind == "below-but-covers":
+        g = _boundary_generator(W)
+        if g is None:
+            return None
+        k = int(np.argmin(g))
+        t = (1.2 * H + 1.5 * eps) / abs(g[k]) * rng.choice([1.0, 1.25, 2.0])
+        d = t * g
+    else:
+        g = np.array(NARROW_DIRS[cone if isinstance(cone, str) else ""], dtype=float)
+        t = {2: 4.0, 3: 6.5}[m] * (H + eps) * rng.choice([1.0, 1.5])
+        d = t * g
+    cj = np.round((ci + d) * 1024) / 1024
+    lower = [list(map(float, ci - hi)), list(map(float, cj - hj))]
+    upper = [list(map(float, ci + hi)), list(map(float, cj + hj))]
+    n = 2
+    if rng.random() < 0.5:  # a third design far worse than both (all-ones is interior to every cone here)
+        cw = ci - 40.0 * np.ones(m)
+        lower.append(list(map(float, cw - 0.25)))
+        upper.append(list(map(float, cw + 0.25)))
+        n = 3
+    return {"kind": "placed", "shape": kind, "alg": alg, "cone": cone, "eps": float(eps), "n": n,
+            "S": list(range(n)), "P": [], "lower": lower, "upper": upper, "enabled": True}
+
+
+def gen_placed_cases(seed):
+    """deterministic structured list (own generator seeded from VERIF_SEED: adding cases here does not shift
+    the random stream of the other families)"""
+    import random
+
+    rng = random.Random(f"placed:{seed}")
+    out = []
+    for alg, cones in (("VOGP", WIDE_CONES), ("VOGP_AD", ["obtuse2", {"theta": 135}])):
+        for cone in cones:
+            out.append(gen_placed_cover_case(rng, alg, cone, "below-but-covers"))
+    for alg, cones in (("VOGP", ["acute2", "threefacet2", "acute3"]), ("VOGP_AD", ["acute2"])):
+        for cone in cones:
+            out.append(gen_placed_cover_case(rng, alg, cone, "above-but-cannot"))
+    for alg, cones in (("VOGP", OFFDIAG_CONES), ("VOGP_AD", OFFDIAG_CONES[:1] + OFFDIAG_CONES[2:3])):
+        for cone in cones:
+            out.append(gen_placed_cover_case(rng, alg, cone, "negative-ustar-covers"))
+    return [c for c in out if c is not None]
+
+
+def placed_algorithm(case):
+    name, n = case["alg"], case["n"]
+    W, order = cone_order(case["cone"])
+    m = W.shape[1]
+    X = np.array([[i / 8.0, (i * 3 % 8) / 8.0] for i in range(n)])
+    if name == "VOGP_AD":
+        pr = stubs.SyntheticContinuousProblem(lambda x: np.zeros((len(x), m)), 1, m, 0.01, depth_max=4)
+        mdl = stubs.ScriptedModel(np.zeros((0, 1)), np.zeros((0, m)), np.zeros((0, m, m)),
+                                  fallback=lambda x: (np.zeros(m), np.ones(m)))
+        a = stubs.build(name, problem=pr, order=order, epsilon=case["eps"], model=mdl)
+        k = 0
+        while len(a.design_space.points) < n:
+            a.design_space.refine_design(k)
+            k += 1
+        a.design_space.point_depths = [a.max_discretization_depth] * len(a.design_space.points)
+        a.enable_epsilon_covering = bool(case.get("enabled", True))
+        return a
+    cls = stubs.ScriptedModelList if name.startswith("PaVeBaPartial") else stubs.ScriptedModel
+    mdl = cls(X, np.zeros((n, m)), np.ones((n, m)))
+    kw = {} if name == "EpsilonPAL" else {"order": order}
+    return stubs.build(name, in_data=X, out_data=np.zeros((n, m)), epsilon=case["eps"], model=mdl, **kw)
+
+
+def run_placed(ctx, case, prop):
+    """real `discarding()` + `epsiloncovering()` / `pareto_updating()` + `useful_updating()` on boxes written
+    into the real region objects, checked like a round of stream 2 (exact geometry + real predicates)"""
+    name = case["alg"]
+    ctx.count("placed_" + name)
+    ctx.count("placedshape_" + case.get("shape", "?"))
+    try:
+        alg = placed_algorithm(case)
+    except Exception as e:
+        viol(ctx, f"crash:{name}.__init__:{core.exc_key(e)}", f"{name} constructor raised {type(e).__name__}: {e}", case)
+        ctx.case_done(case, False)
+        return
+    for i in range(case["n"]):
+        r = alg.design_space.confidence_regions[i]
+        r.lower = np.array(case["lower"][i], dtype=float)
+        r.upper = np.array(case["upper"][i], dtype=float)
+    alg.S, alg.P = set(case["S"]), set(case["P"])
+    if hasattr(alg, "U"):
+        alg.U = set(case.get("U", []))
+    trace = instrument(alg)
+    phases = (["discarding", "epsiloncovering"] if is_pess(name) else ["discarding", "pareto_updating", "useful_updating"])
+    for ph in phases:
+        try:
+            getattr(alg, ph)()
+        except Exception as e:
+            viol(ctx, f"crash:{name}.{ph}:{core.exc_key(e)}", f"{name}.{ph}() raised {type(e).__name__}: {e}", case,
+                 kind="R")
+            ctx.case_done(case, False)
+            return
+    nt = False
+    try:
+        nt = check_round(ctx, case, prop, alg, trace, 0)
+    except RealCodeCrash as c:
+        viol(ctx, f"crash:{c.phase}:{core.exc_key(c.exc)}", f"{name}: the real {c.phase} raised "
+             f"{type(c.exc).__name__}: {c.exc} on displayed regions with the algorithm's own slack", case, kind="R")
+    ctx.case_done(case, bool(nt), canon=["placed", name, case["cone"], case["lower"], case["upper"], case["S"], case["P"]])
+
+
 def gen(ctx):
     rng = ctx.rng
     # structured first: every algorithm class × every table shape once
     if ctx.worker == 0:
+        for c in gen_placed_cases(ctx.seed):
+            yield c
         for alg in TABLE_ALGS:
             for _ in range(2):
                 yield gen_table_case(rng, alg)
@@ -1398,6 +1613,33 @@ def check_round_auer(ctx, case, prop, alg, ph, rnd):
     centres = [list(np.asarray(regs[i].center, dtype=float)) if i in S0 else [0.0] * m for i in range(n)]
     eps = case["eps"]
     S1, S2, P2 = sset(a_dis["S"]), sset(a_par["S"]), a_par["P"]
+    # (R) the widths the rule sums must be the half-widths of the DISPLAYED boxes: Auer's certificate is a
+    # statement about the regions the design space shows (centre ± width)
+    shown = {i: (np.asarray(regs[i].upper, dtype=float) - np.asarray(regs[i].lower, dtype=float)) / 2.0 for i in S0}
+    off = [i for i in S0 if np.any(np.abs(shown[i] - np.asarray(own[i], dtype=float))
+                                   > 1e-9 * max(1.0, float(np.max(np.abs(regs[i].upper))), float(np.max(own[i]))))]
+    if off:
+        # consequence: the real round against the model's round evaluated on the displayed boxes
+        wd = [[0.0] * m for _ in range(n)]
+        for i in S0:
+            wd[i] = [float(x) for x in shown[i]]
+        Cq, Wq = core.qmat(centres), core.qmat(wd)
+        if prop == "C02":
+            ref = core.parse_nats(ctx.ask("elim_auer", core.q(eps), core.nats(S0), core.nats(P0), Cq, Wq))
+            got = sorted(set(S0) - set(S2) - set(P2))
+        else:
+            ref = parse_sets(ctx.ask("around", core.q(eps), core.nats(S0), core.nats(P0), Cq, Wq))
+            got = [S2, P2]
+        i0 = off[0]
+        viol(ctx, "auer-decision-not-from-displayed-regions",
+             "Auer.run_one_step(): the confidence widths summed by discarding()/pareto_updating() are not the "
+             "half-widths of the boxes the design space displays, so elimination / P-entry is not decided by the "
+             "displayed regions" + ("; the round also differs from the rule evaluated on the displayed boxes"
+                                    if got != ref else ""),
+             case, kind="R", detail={"round": rnd, "design": i0, "displayed_half_width": [float(x) for x in shown[i0]],
+                                     "width_used": [float(x) for x in own[i0]], "impl": got,
+                                     "rule_on_displayed_boxes": ref})
+        return False
     verdicts = []
     # borderline band: float `β_i + β_j` vs exact rational addition; widths scaled by (1 ± 2^-40)
     for f in (1.0 - 2.0 ** -40, 1.0 + 2.0 ** -40):
@@ -1452,6 +1694,8 @@ def run_case_common(ctx, case, prop):
         run_auer(ctx, case, prop)
     elif kind == "run":
         run_real(ctx, case, prop)
+    elif kind == "placed":
+        run_placed(ctx, case, prop)
     else:
         raise ValueError(f"unknown case kind {kind!r}")
 
